@@ -1039,4 +1039,6 @@ def run(run: Run):
     run.floor('C02.R3', 2)
     run.floor('C02.R4', 3)
     run.floor('C02.R5', 5)
+    from .common import shared_mechanisms as _shared_f
+    _shared_f(run, 'C02', 10, ['formulas'])
     return INFO
